@@ -134,6 +134,8 @@ Cmds == { [cls |-> "next", raw |-> "n\n", bytes |-> <<110, 10>>],
           [cls |-> "print", raw |-> "print flags\n", bytes |-> << >>, what |-> [k |-> "flags"]],
           [cls |-> "garbage", raw |-> "x\n", bytes |-> << >>],
           [cls |-> "garbage", raw |-> "\n", bytes |-> << >>],
+          \* a line that is not valid UTF-8 (the harness writes a byte FFh): reported, then the run goes on as after `next`
+          [cls |-> "unreadable", raw |-> "?\n", bytes |-> << >>],
           [cls |-> "quit", raw |-> "q\n", bytes |-> << >>] }
 Scripts == UNION {[1 .. n -> Cmds] : n \in 0 .. MaxScript}
 
